@@ -325,6 +325,11 @@ class Gen:
                 vals = [str(r.choice([30, 50, 13.9, 7.5]))] if "MAX_SPEED" in e.name or r.random() < 0.2 else []
                 els.append(TrafficSignElement(e, vals))
             firsts = {u.lanelet_id for u in users if not u.predecessor}
+            if self.fmt == "pb" and r.random() < 0.35:
+                # first occurrences are data of the sign; nothing obliges the lanelet named there to list the sign
+                others = [x for x in lls if x not in users]
+                if others:
+                    firsts.add(r.choice(others).lanelet_id)
             s = TrafficSign(self.nid, els, firsts, np.array([self.f(-50, 50), self.f(-50, 50)]),
                             virtual=r.random() < 0.5)
             self.nid += 1
@@ -392,6 +397,10 @@ class Gen:
         if r.random() < 0.6:
             x = self.f(-3, 2)
             kw["orientation"] = AngleInterval(x, x + abs(self.f(0.05, 1.0)) + 1e-3)
+            if r.random() < 0.15:
+                # "any heading": almost the full circle, ends within the last written digit of +-pi / of -2pi
+                kw["orientation"] = r.choice([AngleInterval(-3.14159, 3.14159), AngleInterval(-3.1415926, 3.1415926),
+                                              AngleInterval(-6.28318, -0.00001), AngleInterval(0.00001, 6.28318)])
         if r.random() < 0.6:
             v = self.f(0, 30)
             kw["velocity"] = Interval(v, v + abs(self.f(0.5, 5)) + 1e-3)
